@@ -3,7 +3,9 @@
 package main
 
 import (
+	_ "verifharness/comp/broadcast"
 	_ "verifharness/comp/ccall"
+	_ "verifharness/comp/ccontainer"
 	_ "verifharness/comp/codec"
 	_ "verifharness/comp/conc"
 	_ "verifharness/comp/csync"
